@@ -56,6 +56,14 @@ def gen_world_case(rng, n_types=28, max_depth=3):
             extra.append(tf.exa(e[2]))
         if e[0] in (2, 3) and len(e) > 2:
             args = [(None, x) for x in reversed(e[1:])]
+    # parametrised generics of one origin with different numbers of arguments sharing a covariant prefix
+    for (o, e) in list(ts):
+        if e[0] == 1 and e[1] == 6 and len(e) >= 3:
+            extra.append((None, [1, 6] + e[2:] + [[0, rng.choice([0, 2, 3])]]))     # one more argument
+            if len(e) >= 4:
+                extra.append((None, [1, 6] + e[2:-1]))                                # one fewer
+            extra.append((None, [1, 1, e]))
+            extra.append((None, [1, 1, [1, 6] + e[2:] + [[0, 0]]]))
     encs = []
     seen = set()
 
